@@ -730,10 +730,7 @@ func (w *World) collDir() string {
 }
 
 func (w *World) fileName(uuid string) string {
-	ext := w.Cfg.Ext
-	if ext == "" {
-		ext = ".json"
-	}
+	ext := w.Cfg.BaseExt()
 	if w.Cfg.Compress {
 		ext += ".gz"
 	}
